@@ -46,16 +46,25 @@ def is_tok(x):
     return not x.children and isinstance(x.data.get('word'), str) and 'num' in x.data
 
 
-def check_one(mtj, op, relc, order=None):
+def check_one(mtj, op, relc, order=None, pre=None):
+    """pre: None | 'binarize' (the tree is head-marked and binarized first: @-nodes are constituents, not
+    punctuation, whatever their data says)."""
     mt = model.MT.from_json(mtj)
-    case = {'mt': mtj, 'op': op, 'relc': relc, 'order': order}
+    case = {'mt': mtj, 'op': op, 'relc': relc, 'order': order, 'pre': pre}
     out = []
 
     def bad(kind, detail):
         out.append({'kind': kind, 'where': op, 'case': case,
-                    'detail': '%s [input %s, relc=%r]' % (detail, model.mt_str(mt.root, mt.toks), relc),
+                    'detail': '%s [input %s, relc=%r%s]' % (detail, model.mt_str(mt.root, mt.toks), relc,
+                                                          ', after negra_mark_heads + binarize' if pre else ''),
                     'what': '%s: %s' % (op, kind)})
     t = build_any(mt, order)
+    if pre == 'binarize':
+        try:
+            t = transform.binarize(transform.negra_mark_heads(t))
+        except Exception as e:
+            bad('exception', 'negra_mark_heads + binarize before %s: %s: %s' % (op, type(e).__name__, e))
+            return out, 0
     nodes = all_nodes(t)
     before = {id(x): x.parent for x in nodes}
     toks = sorted(raw_leaves(t), key=lambda x: x.data['num'])
@@ -166,7 +175,7 @@ def inventory_cases():
 
 def check_case(case):
     with quiet():
-        return check_one(case['mt'], case['op'], case['relc'], case.get('order'))[0]
+        return check_one(case['mt'], case['op'], case['relc'], case.get('order'), case.get('pre'))[0]
 
 
 def run_chunk(chunk):
@@ -198,7 +207,8 @@ def run_chunk(chunk):
                 j = mt.to_json()
                 for op, relc in ops_for(n):
                     idx += 1
-                    vs, nmoved = check_one(j, op, relc, (None, 'rev', 'export')[idx % 3])
+                    vs, nmoved = check_one(j, op, relc, (None, 'rev', 'export')[idx % 3],
+                                           'binarize' if (idx % 4 == 0 and model.max_arity_of(sh) > 2) else None)
                     res.evals += 1
                     if nmoved:
                         res.nontrivial += 1
